@@ -189,6 +189,8 @@ def r_date_arith(chk, P, tier):
     for y in sorted(reps.values()):
         nd = cal.days_in_year(y)
         bases += [(y, o) for o in ((1, 60, 200, nd) if tier != "thorough" else (1, 2, 59, 60, 61, 200, nd - 1, nd))]
+    for y in (1900, 2100, 2200):        # common years divisible by 4 (and 2000 above is the leap century): the leap rule's other pieces
+        bases += [(y, 1), (y, 59), (y, 60), (y, 365)]
     bases += [(miny, 1), (miny, 2), (miny, cal.days_in_year(miny)), (maxy, 1), (maxy, cal.days_in_year(maxy) - 1), (maxy, cal.days_in_year(maxy)), (0, 1), (-1, 365), (1, 1), (-400, 366 if cal.leap(-400) else 365)]
     mags = (0, 1, 2, 6, 7, 28, 29, 30, 31, 58, 59, 60, 164, 165, 166, 199, 200, 305, 306, 364, 365, 366, 367, 730, 731, 1460, 1461, 1462, 36524, 36525, 146096, 146097, 146098,
             dn_max - dn_min - 1, dn_max - dn_min, dn_max - dn_min + 1, 2**31 - 2, 2**31 - 1)
